@@ -428,9 +428,9 @@ func TestScanTypesAndGetScanSlice(t *testing.T) {
 					} else {
 						eq(t, *slice[1].(*sql.NullInt64), sql.NullInt64{Int64: -5, Valid: true})
 					}
-					eq(t, *slice[9].(*string), "12.35")
+					eq(t, strOf(slice[9]), "12.35")
 					eq(t, *slice[11].(*sql.NullTime), sql.NullTime{Time: when, Valid: true})
-					eq(t, *slice[16].(*string), "\x01")
+					eq(t, strOf(slice[16]), "\x01")
 				} else {
 					eq(t, *slice[1].(*sql.NullInt64), sql.NullInt64{})
 					eq(t, *slice[11].(*sql.NullTime), sql.NullTime{})
@@ -1110,4 +1110,17 @@ func TestDriverSurface(t *testing.T) {
 	must(t, db.QueryRow("SELECT now(), now(6)").Scan(&a, &b))
 	eq(t, a, time.Date(2030, 1, 2, 3, 4, 5, 0, time.UTC))
 	eq(t, b, time.Date(2030, 1, 2, 3, 4, 5, 678901000, time.UTC))
+}
+
+// strOf reads a text holder of GetScanSlice (*string before the NULL repair in /repo, *sql.NullString after)
+func strOf(h interface{}) string {
+	switch x := h.(type) {
+	case *string:
+		return *x
+	case *sql.NullString:
+		return x.String
+	case *sql.RawBytes:
+		return string(*x)
+	}
+	return fmt.Sprintf("%T", h)
 }
